@@ -72,6 +72,7 @@ inductive Det
   | map (items : List (Str × List PV))        -- key (`field|mod|…`) ↦ values
   | list (ds : List Det)
   | values (vs : List PV)                      -- plain value / list of plain values: keyword item
+  | all (ds : List Det)                        -- AND of sub-detections (only produced by documented rewrites, e.g. one-to-many field mapping inside a map)
 deriving Repr
 
 structure Ctx where
@@ -238,6 +239,12 @@ def detBE (cx : Ctx) : Nat → Det → Except SpecErr BE
     | .error e => .error e
   | _, .values vs => itemBE cx none vs
   | 0, .list _ => .error (.unsupported "nesting")
+  | 0, .all _ => .error (.unsupported "nesting")
+  | f+1, .all ds =>
+    match mapME (detBE cx f) ds with
+    | .ok [e] => .ok e
+    | .ok es => .ok (.and es)
+    | .error e => .error e
   | f+1, .list ds =>
     match mapME (detBE cx f) ds with
     | .ok [e] => .ok e
